@@ -28,7 +28,12 @@ POLICIES = ['fifo', 'interleaved', 'interleaved_nokeep', 'random', 'blocked_rand
 # ---------------------------------------------------------------------------
 # float level
 # ---------------------------------------------------------------------------
-def float_roundtrip(fs, K0, k, pfrac):
+def float_roundtrip(fs, K0, k, pfrac, how=None):
+    if how:
+        # the same numbers as NumPy scalars / Python int (fs), NumPy integer (sample counter)
+        fs = as_repr(fs, 'int' if how == 'int' else 'np64')
+        if how == 'np':
+            K0, k = np.int64(K0), np.int64(k)
     T = K0 / fs                       # queue.set_t0(K0 / fs)
     p = pfrac / fs                    # prestim_time
     t0 = T + (k / fs)                 # queue.py next_trial: self._t0 + (self._samples/self._fs)
@@ -38,26 +43,53 @@ def float_roundtrip(fs, K0, k, pfrac):
 # ---------------------------------------------------------------------------
 # pipeline simulation (real queue; optionally the real extractor)
 # ---------------------------------------------------------------------------
+def as_repr(x, how):
+    """The same number in another representation."""
+    if how in (None, 'float'):
+        return x
+    if how == 'np64':
+        return np.float64(x)
+    if how == 'int':
+        return int(x) if float(x).is_integer() else x
+    raise ValueError(how)
+
+
+REGISTRY_NAME = {'fifo': 'first-in, first-out', 'interleaved': 'interleaved first-in, first-out',
+                 'blocked_fifo': 'blocked first-in, first-out', 'random': 'random'}
+
+
 def make_queue(case):
     from psiaudio import queue as Q
-    fs = case['fs']
+    hard = case.get('hard') or {}
+    fs = as_repr(case['fs'], hard.get('fs_as'))
     pol = case['policy']
-    if pol == 'fifo':
-        q = Q.FIFOSignalQueue(fs=fs)
+    # construction routes: fs given to the constructor, or set afterwards with set_fs; class looked up in the
+    # module's name -> class table
+    late_fs = bool(hard.get('set_fs'))
+    kw = {} if late_fs else {'fs': fs}
+    if hard.get('registry') and pol in REGISTRY_NAME:
+        q = Q.queues[REGISTRY_NAME[pol]](**kw)
+    elif pol == 'fifo':
+        q = Q.FIFOSignalQueue(**kw)
     elif pol == 'interleaved':
-        q = Q.InterleavedFIFOSignalQueue(fs=fs)
+        q = Q.InterleavedFIFOSignalQueue(**kw)
     elif pol == 'interleaved_nokeep':
-        q = Q.InterleavedFIFOSignalQueue(fs=fs, keep_complete_waveforms=False)
+        q = Q.InterleavedFIFOSignalQueue(False, **kw) if hard.get('pos') else \
+            Q.InterleavedFIFOSignalQueue(keep_complete_waveforms=False, **kw)
     elif pol == 'random':
-        q = Q.RandomSignalQueue(fs=fs)
+        q = Q.RandomSignalQueue(**kw)
     elif pol == 'blocked_random':
-        q = Q.BlockedRandomSignalQueue(fs=fs, seed=case['seed'])
+        q = Q.BlockedRandomSignalQueue(case['seed'], **kw) if hard.get('pos') else \
+            Q.BlockedRandomSignalQueue(seed=case['seed'], **kw)
     elif pol == 'blocked_fifo':
-        q = Q.BlockedFIFOSignalQueue(fs=fs)
+        q = Q.BlockedFIFOSignalQueue(**kw)
     elif pol == 'grouped':
-        q = Q.GroupedFIFOSignalQueue(group_size=case['group'], fs=fs)
+        q = Q.GroupedFIFOSignalQueue(case['group'], **kw) if hard.get('pos') else \
+            Q.GroupedFIFOSignalQueue(group_size=case['group'], **kw)
     else:
         raise ValueError(pol)
+    if late_fs:
+        q.set_fs(fs)
     return q
 
 
@@ -65,7 +97,9 @@ def make_source(case, i, st):
     fs = case['fs']
     if st['kind'] == 'array':
         n = st['n']
-        return (1000.0 * (i + 1) + np.arange(1, n + 1, dtype=float))
+        w = (1000.0 * (i + 1) + np.arange(1, n + 1, dtype=float))
+        # the same values in another dtype (all exactly representable)
+        return w.astype({'f4': np.float32, 'i4': np.int32, 'i8': np.int64}[st['dtype']]) if st.get('dtype') else w
     from psiaudio.calibration import FlatCalibration
     from psiaudio.stim import Cos2EnvelopeFactory, ToneFactory
     tone = ToneFactory(fs=fs, level=0, frequency=st['freq'], calibration=FlatCalibration.as_attenuation())
@@ -100,19 +134,74 @@ def simulate(case, with_extractor):
     """Run the real queue through the case's ops.  Returns a dict with the played stream, the trial log,
     the per-acquisition-call visibility of notifications and (optionally) the real extractor's output."""
     from psiaudio import pipeline as P
+    import itertools
     fs, K0 = case['fs'], case['K0']
+    hard = case.get('hard') or {}
     state = np.random.get_state()
+    if case.get('decoy') and with_extractor:
+        # other objects of the same classes, differing in their parameters, built and used first: nothing of them
+        # may show in what follows
+        try:
+            simulate(case['decoy'], True)
+        except Exception:
+            pass
     np.random.seed(case['seed'] % (2 ** 32))
     try:
         q = make_queue(case)
         q.set_t0(K0 / fs)
-        sources = []
-        keys = []
-        for i, st in enumerate(case['stims']):
+        sources, keys = [], []
+        waves = [None] * (len(case['stims']) + len(case.get('late') or []))
+
+        def delays_of(st):
+            d = st['delay']
+            if st.get('delay_as') == 'cycle':
+                return itertools.cycle([d, st.get('delay2', d)])    # any iterable is accepted; delay2 >= delay
+            if st.get('delay_as') == 'int' and float(d).is_integer():
+                return int(d)
+            if st.get('delay_as') == 'np64':
+                return np.float64(d)
+            return d
+
+        def caller_touches(src):
+            # the caller goes on using what it passed in: the queue holds its own copy
+            if hard.get('clobber_src'):
+                if isinstance(src, np.ndarray):
+                    src[...] = -555
+                else:
+                    src.reset()
+                    src.next(3)
+
+        def add(i, st, trials):
             src = make_source(case, i, st)
+            waves[i] = source_waveform(src)
+            dur = None
+            if hard.get('explicit_duration'):
+                # the default value, spelled out
+                dur = src.shape[-1] / as_repr(case['fs'], hard.get('fs_as')) if isinstance(src, np.ndarray) else src.get_duration()
+            md = {'stim': i}
+            if hard.get('pos'):
+                k = q.append(src, trials, delays_of(st), dur, md)
+            elif dur is not None:
+                k = q.append(src, trials, delays_of(st), duration=dur, metadata=md)
+            else:
+                k = q.append(src, trials, delays_of(st), metadata=md)
             sources.append(src)
-            keys.append(q.append(src, st['trials'], st['delay'], metadata={'stim': i}))
-        waves = [source_waveform(s) for s in sources]
+            keys.append(k)
+            caller_touches(src)
+            return k
+
+        if hard.get('extend') and not hard.get('explicit_duration'):
+            srcs = [make_source(case, i, st) for i, st in enumerate(case['stims'])]
+            for i, x in enumerate(srcs):
+                waves[i] = source_waveform(x)
+            sources.extend(srcs)
+            keys.extend(q.extend(srcs, [st['trials'] for st in case['stims']], [delays_of(st) for st in case['stims']],
+                                 metadata=[{'stim': i} for i in range(len(srcs))]))
+            for x in srcs:
+                caller_touches(x)
+        else:
+            for i, st in enumerate(case['stims']):
+                add(i, st, st['trials'])
         kidx = {k: i for i, k in enumerate(keys)}
 
         added_q, removed_q = deque(), deque()
@@ -141,7 +230,10 @@ def simulate(case, with_extractor):
             removed_pos.setdefault((info['t0'], kidx[info['key']]), []).append(counter[0])
 
         q.connect(on_added, 'added')
-        q.connect(on_removed, 'removed')
+        if hard.get('pos'):
+            q.connect(on_removed, 'removed')
+        else:
+            q.connect(callback=on_removed, event='removed')
 
         played = [np.zeros(K0)]          # acquisition started K0 samples before the queue
         n_played = K0                    # samples generated (= queue clock + K0)
@@ -150,21 +242,44 @@ def simulate(case, with_extractor):
         calls = []                       # per acquisition call: start, n, reqs(list of info), rems(list of info)
         got, done = [], []
         ex = None
+
+        def consumer(store):
+            def target(x):
+                if hard.get('clobber_epochs'):
+                    # the consumer owns the batch: keep a copy, overwrite the original in place
+                    snap = P.PipelineData(np.array(np.asarray(x)), fs=x.fs, s0=x.s0, channel=x.channel,
+                                          metadata=copy.deepcopy(x.metadata))
+                    store.append(snap)
+                    if np.asarray(x).flags.writeable:
+                        np.asarray(x)[...] = 4242
+                    for md in x.metadata:
+                        md.clear()
+                else:
+                    store.append(x)
+            return target
+
         if with_extractor:
             epoch_size, pre, post = epoch_params(case)
-            ex = P.extract_epochs(fs, added_q, epoch_size, got.append, buffer_size=case['buffer'],
-                                  empty_queue_cb=lambda: done.append(1), removed_queue=removed_q,
-                                  prestim_time=pre, poststim_time=post)
+            xfs = as_repr(fs, hard.get('fs_as'))
+            if hard.get('pos'):
+                ex = P.extract_epochs(xfs, added_q, epoch_size, consumer(got), case['buffer'], lambda: done.append(1),
+                                      removed_q, pre, post)
+            else:
+                ex = P.extract_epochs(xfs, added_q, epoch_size, consumer(got), buffer_size=case['buffer'],
+                                      empty_queue_cb=lambda: done.append(1), removed_queue=removed_q,
+                                      prestim_time=pre, poststim_time=post)
         # an optional second extractor on the same queue, with its own (different) epoch size: checked by the oracle
         ex2, got2, out2 = None, [], []
         if with_extractor and case.get('second'):
-            ex2 = P.extract_epochs(fs, added_q2, case['second'], got2.append, buffer_size=case['buffer'],
+            ex2 = P.extract_epochs(fs, added_q2, case['second'], consumer(got2), buffer_size=case['buffer'],
                                    removed_queue=removed_q2, prestim_time=pre, poststim_time=0)
         out_lines = []
         seen_added, seen_removed = 0, 0
 
         def stream():
-            return np.concatenate(played) if len(played) > 1 else played[0]
+            if len(played) > 1:
+                played[:] = [np.concatenate(played)]
+            return played[0]
 
         def acquire(n):
             nonlocal acq_pos, seen_added, seen_removed
@@ -201,22 +316,58 @@ def simulate(case, with_extractor):
                 removed_q2.clear()
             acq_pos += n
 
+        def generate(n):
+            nonlocal n_played
+            dec = hard.get('decrement')
+            if dec == 'pos':
+                w = q.pop_buffer(n, True)
+            elif dec == 'kw':
+                w = q.pop_buffer(samples=n, decrement=True)
+            elif dec == 'off':
+                w = q.pop_buffer(n, decrement=False)       # trial counters are left to someone else: the queue never runs out
+            else:
+                w = q.pop_buffer(n)
+            played.append(np.array(w, dtype=float))
+            n_played += len(w)
+            if hard.get('clobber_out') and isinstance(w, np.ndarray) and w.flags.writeable:
+                w[...] = 777                                # the device re-uses / scales its output buffer in place
+
+        def structural(sel, delta):
+            """A structurally interesting position (trial start, epoch start, waveform end, epoch end of a generated
+            trial) inside (acq_pos, n_played], shifted by delta."""
+            Pp = round(case['pre'] * fs)
+            pts = set()
+            for t in trials:
+                wl = len(waves[t['stim']])
+                _, L = conv(case, {'t0': t['t0'], 'duration': t['dur']})
+                pts.update([t['K'], t['K'] - Pp, t['K'] + wl, t['K'] - Pp + L])
+            pts = sorted(p_ for p_ in pts if acq_pos < p_ + delta <= n_played)
+            if not pts:
+                return None
+            return pts[sel * (len(pts) - 1) // 1000] + delta
+
+        clean_pause = False              # paused by pause(t): no source is active, resume(t) may move the clock forward
         for op in case['ops']:
             if op[0] == 'gen':
-                w = q.pop_buffer(op[1])
-                played.append(np.asarray(w, dtype=float))
-                n_played += len(w)
+                generate(op[1])
             elif op[0] == 'acq':
                 acquire(op[1])
+            elif op[0] == 'acq_to':
+                tgt = structural(op[1], op[2])
+                if tgt is not None:
+                    acquire(tgt - acq_pos)
+            elif op[0] == 'append':
+                j = op[1]
+                st = case['late'][j]
+                k = add(len(case['stims']) + j, st, st['trials'])
+                kidx[k] = len(case['stims']) + j
             elif op[0] == 'pause':
                 hi = n_played
                 if len(op) > 4 and op[4]:
                     # two-step pause: first `pause()` (stop generating now), a little more output is fetched
                     # (silence), then `pause(t)` names the position reached by the device, not after the first call
                     q.pause()
-                    w0 = q.pop_buffer(op[4])
-                    played.append(np.asarray(w0, dtype=float))
-                    n_played += len(w0)
+                    generate(op[4])
                 # pause position: op[1] in [0, 1000] maps to [acq_pos, clock at the (first) pause call]
                 m = acq_pos + (hi - acq_pos) * op[1] // 1000
                 m = max(m, K0)
@@ -233,17 +384,26 @@ def simulate(case, with_extractor):
                     continue
                 pauses.append((m, len(trials)))
                 # the pause time need not lie on the sample grid: the device (and the queue) round it to sample m
-                q.pause((m + (op[2] if len(op) > 2 else 0)) / fs)
+                q.pause(as_repr((m + (op[2] if len(op) > 2 else 0)) / fs, hard.get('pause_as')))
                 s = stream()[:m]         # the device discards what was not yet played
                 played[:] = [s]
                 n_played = m
+                clean_pause = True
             elif op[0] == 'resume':
-                q.resume()
+                if len(op) > 1 and op[1] and clean_pause and q._source is None and K0 + q._samples == n_played:
+                    # resume(t) with t after the clock: the device has played silence in between
+                    q.resume((n_played + op[1]) / fs)
+                    gap = K0 + q._samples - n_played
+                    if gap < 0:
+                        raise RuntimeError('resume(t) moved the clock backwards')
+                    played.append(np.zeros(gap))
+                    n_played += gap
+                else:
+                    q.resume()
+                clean_pause = False
         # flush: let everything pending complete
         q.resume()
-        w = q.pop_buffer(case['flush'])
-        played.append(np.asarray(w, dtype=float))
-        n_played += len(w)
+        generate(case['flush'])
         while acq_pos < n_played:
             acquire(case['flush_chunk'])
         return {'stream': stream(), 'trials': trials, 'calls': calls, 'pauses': pauses, 'waves': waves,
@@ -300,7 +460,16 @@ class C06(Spec):
             '2^40 and dense (-3..+3) around powers of two; prestim 0 / on grid / off grid. pipe: every queue policy, 1-4 stimuli '
             '(arrays and real Cos2Envelope tone factories, durations and delays off the sample grid), generation and '
             'acquisition partitions drawn independently, 0-2 pauses at positions anywhere between acquired and generated '
-            '(including exactly at trial boundaries). Non-trivial: float case with k > 0; pipe case with at least 2 trials.')
+            '(including exactly at trial boundaries). pipe-hard: the same, told differently - fs / pause time / delays as int or '
+            'NumPy scalars, delays as an iterable (alternating values), waveforms as float32/int32/int64 arrays; queue built via '
+            'set_fs, the name->class table, extend() instead of append(), positional arguments, duration spelled out, '
+            'pop_buffer(decrement=...) incl. False; prestim at a non-default value (on/off grid, look-back buffer = prestim or '
+            'more); acquisition chunk edges at -1/0/+1 around every trial start, epoch start, waveform end and epoch end; '
+            'pause before anything was generated, resume without pause, two pauses without a resume, resume(t) after the clock; '
+            'stimuli appended while the queue runs or after it ran out; the caller overwrites the arrays it appended, every '
+            'buffer pop_buffer returned and every batch of epochs it was handed; other queues/extractors with other parameters '
+            'built and used first. pipe-scale: > 1000 trials / waveforms of 2^16 samples. '
+            'Non-trivial: float case with k > 0; pipe case with at least 2 trials.')
     exhaustive_note = {'quick': '', 'thorough': ''}
     PARALLEL = 16
 
@@ -325,32 +494,61 @@ class C06(Spec):
                 P, f = rng.randint(0, 5000), rng.choice([0.25, -0.25, 0.4, -0.4, 0.3, -0.1])
             if K0 + k - P < 0:
                 P, f = 0, 0.0
-            yield {'kind': 'float', 'fs': fs, 'K0': K0, 'k': k, 'P': P, 'f': f}
+            c = {'kind': 'float', 'fs': fs, 'K0': K0, 'k': k, 'P': P, 'f': f}
+            if i % 4 == 3:
+                c['as'] = rng.choice(['np', 'np64', 'int'])
+            yield c
 
-    def _pipe_case(self, rng, big):
+    def _pipe_case(self, rng, big, hardened=False, scale=None):
+        """hardened: the same kind of history told through other representations, construction routes, non-default
+        options (prestim!), unusual but legal op orders and a caller that overwrites what it got / passed in.
+        scale: 'many' (over a thousand trials) or 'long' (waveforms of 2^16 samples)."""
         fs = rng.choice(FS_LIST) if rng.random() < 0.75 else rng.uniform(8000, 400000)
         policy = rng.choice(POLICIES)
+        H = (lambda p: rng.random() < p) if hardened else (lambda p: False)
         nst = rng.randint(1, 4)
         use_tone = rng.random() < 0.4
         stims = []
         # one epoch length per extractor: all stimuli share the duration
+        if scale:
+            use_tone = scale == 'long' and rng.random() < 0.5
         if use_tone:
             dur = rng.choice([1.03e-3, 2.5e-3 + 0.3 / fs, 5e-3, 80.4 / fs])
+            if scale == 'long':
+                dur = (2 ** 16 + 0.3) / fs
             wlen = int(round(dur * fs))
         else:
             wlen = rng.randint(3, 60)
+            if scale == 'long':
+                wlen = 2 ** 16 + rng.randint(-1, 1)
+            elif scale == 'many':
+                wlen = rng.randint(2, 6)
             dur = wlen / fs
         delay_s = rng.choice([0, 0, 1, 3, 10, 25])
         delay = (delay_s + rng.choice([0, 0, 0.3, -0.3, 0.45])) / fs if delay_s else rng.choice([0, 0.3 / fs])
         delay = max(delay, 0)
         dsamp = int(round(delay * fs))
+        delay_as = rng.choice(['cycle', 'cycle', 'int', 'np64']) if H(0.4) else None
+        wdtype = rng.choice(['f4', 'i4', 'i8']) if H(0.3) else None
+
+        def mk_stim(tr):
+            if use_tone:
+                st = {'kind': 'tone', 'freq': float(rng.choice([250, 1000, 4000])), 'dur': dur,
+                      'rise': min(0.5e-3, dur / 4), 'trials': tr, 'delay': delay}
+            else:
+                st = {'kind': 'array', 'n': wlen, 'trials': tr, 'delay': delay}
+                if wdtype:
+                    st['dtype'] = wdtype
+            if delay_as:
+                st['delay_as'] = delay_as
+                if delay_as == 'cycle' and rng.random() < 0.6:
+                    st['delay2'] = delay + rng.choice([1, 4, 4.3]) / fs     # alternating inter-trial delays
+            return st
         for i in range(nst):
             tr = rng.randint(1, 4 if big else 3)
-            if use_tone:
-                stims.append({'kind': 'tone', 'freq': float(rng.choice([250, 1000, 4000])), 'dur': dur,
-                              'rise': min(0.5e-3, dur / 4), 'trials': tr, 'delay': delay})
-            else:
-                stims.append({'kind': 'array', 'n': wlen, 'trials': tr, 'delay': delay})
+            if scale == 'many':
+                tr = rng.randint(300, 600)
+            stims.append(mk_stim(tr))
         group = rng.choice([g for g in range(1, nst + 1) if nst % g == 0])
         K0 = rng.choice([0, 0, 7, 1000, 123457])
         # epoch: covers the stimulus, ends before the next trial
@@ -362,7 +560,21 @@ class C06(Spec):
             epoch_size, post = None, post_s / fs
         else:
             epoch_size, post = (wlen + post_s) / fs, 0
-        pre = 0
+        pre, buffer = 0, rng.choice([0, 0, 20 / fs])
+        if H(0.5):
+            # prestim at a non-default value: on the grid or off it (not near a half-sample tie).  The request becomes
+            # visible when the trial is generated, i.e. up to P samples after its first sample was acquired, so the
+            # look-back buffer must hold at least P samples; the first trial must not start before sample P.
+            Pn = rng.choice([1, 2, 5, 17, wlen])
+            pre = (Pn + rng.choice([0, 0, 0.3, -0.3])) / fs
+            buffer = (Pn + rng.choice([0, 0, 1, 30])) / fs
+            K0 = max(K0, Pn) if rng.random() < 0.7 else Pn
+            # two off-grid terms (duration and prestim) may round, as a sum, to one sample less than the parts: the epoch
+            # would then be shorter than prestim + waveform (outside "the epoch covers the stimulus"); keep prestim on the
+            # grid in that case
+            size = dur if epoch_size is None else epoch_size
+            if round((size + post + pre) * fs) - round(pre * fs) != round((size + post) * fs):
+                pre = Pn / fs
         total = sum(s['trials'] for s in stims) * (wlen + dsamp) + 50
         # operations
         ops = []
@@ -370,38 +582,106 @@ class C06(Spec):
         budget = total
         pause_at = sorted(rng.sample(range(1, 12), npause)) if npause else []
         step = 0
+        def pause_op():
+            return ['pause', rng.choice([0, 1000, 500, rng.randint(0, 1000), rng.randint(0, 1000)]),
+                    rng.choice([0, 0, 0.3, -0.3, 0.45, -0.45]), rng.choice(['', '', 'end']),
+                    rng.choice([0, 0, 0, 5, 40])]
+        late = []
+        if H(0.15):
+            # unusual but legal beginnings: pause before anything was generated; resume without a pause
+            ops.append(pause_op() if rng.random() < 0.6 else ['resume'])
+            if ops[-1][0] == 'pause' and rng.random() < 0.5:
+                ops.append(['gen', rng.randint(1, 20)])
+            if ops[-1][0] != 'resume':
+                ops.append(['resume'])
         while budget > 0 and step < 14:
             step += 1
             g = rng.choice([1, 2, 5, wlen, wlen + dsamp, 2 * (wlen + dsamp) + 1, rng.randint(1, max(2, total // 3))])
+            if scale:
+                g = rng.choice([1, wlen, total // 5, total // 3, total // 2])
             ops.append(['gen', g])
             budget -= g
             if rng.random() < 0.7:
                 ops.append(['acq', rng.choice([1, 3, wlen, rng.randint(1, max(2, g))])])
+            if H(0.3):
+                # acquisition chunk edge exactly at / one sample around a trial start, epoch start, waveform end, epoch end
+                ops.append(['acq_to', rng.randint(0, 1000), rng.choice([-1, 0, 0, 1])])
+            if H(0.06) and policy in ('fifo', 'random', 'interleaved', 'interleaved_nokeep') and len(late) < 2:
+                # a stimulus added while the queue is running (or after it ran out)
+                late.append(mk_stim(rng.randint(1, 2)))
+                ops.append(['append', len(late) - 1])
             if step in pause_at:
-                ops.append(['pause', rng.choice([0, 1000, 500, rng.randint(0, 1000), rng.randint(0, 1000)]),
-                            rng.choice([0, 0, 0.3, -0.3, 0.45, -0.45]), rng.choice(['', '', 'end']),
-                            rng.choice([0, 0, 0, 5, 40])])
+                ops.append(pause_op())
                 if rng.random() < 0.7:
                     ops.append(['gen', rng.randint(1, 30)])
                     if rng.random() < 0.5:
                         ops.append(['acq', rng.randint(1, 40)])
-                ops.append(['resume'])
+                if H(0.25):
+                    # a second pause without a resume in between
+                    ops.append(pause_op())
+                    if rng.random() < 0.5:
+                        ops.append(['gen', rng.randint(1, 30)])
+                # resume(), or resume(t) with t a few samples after the clock
+                ops.append(['resume', rng.choice([1, 3, 50])] if H(0.3) else ['resume'])
+                if H(0.1):
+                    ops.append(['resume'])
         second = None
         if rng.random() < 0.3:
             # another consumer of the same notifications with a different epoch size (in samples: wlen - 3 ... wlen + post)
             # (never shorter than the waveform: the property is about epochs holding the stimulus and then silence)
             cands = [wlen + k for k in (0, 1, 2, post_s) if 0 <= k <= dsamp and (wlen + k) / fs != epoch_size]
             second = rng.choice(cands) / fs if cands else None
-        return {'kind': 'pipe', 'second': second, 'fs': fs, 'policy': policy, 'group': group, 'stims': stims, 'K0': K0,
-                'epoch_size': epoch_size, 'pre': pre, 'post': post, 'buffer': rng.choice([0, 0, 20 / fs]),
+        case = {'kind': 'pipe', 'second': second, 'fs': fs, 'policy': policy, 'group': group, 'stims': stims, 'K0': K0,
+                'epoch_size': epoch_size, 'pre': pre, 'post': post, 'buffer': buffer,
                 'ops': ops, 'flush': 2 * total + 200, 'flush_chunk': rng.choice([7, 50, 1000, 100000]),
                 'seed': rng.randint(0, 10 ** 6)}
+        if scale:
+            case['kind'] = 'pipe-scale'
+            case['flush'] = total + 200
+            case['flush_chunk'] = rng.choice([1000, 100000, 2 ** 16 + 1])
+        if not hardened:
+            return case
+        case['kind'] = 'pipe-hard' if not scale else 'pipe-scale'
+        if late:
+            case['late'] = late
+            case['flush'] += 2 * sum(st['trials'] for st in late) * (wlen + dsamp + 5)
+        hard = {}
+        if H(0.3):
+            hard['fs_as'] = rng.choice(['np64', 'int'])
+        if H(0.2):
+            hard['pause_as'] = 'np64'
+        if H(0.3):
+            hard['set_fs'] = True
+        if H(0.2):
+            hard['registry'] = True
+        if H(0.3):
+            hard['pos'] = True
+        if H(0.3):
+            hard['extend'] = True
+        if H(0.25):
+            hard['explicit_duration'] = True
+        if H(0.3):
+            hard['decrement'] = rng.choice(['pos', 'kw', 'kw', 'off'])
+            if hard['decrement'] == 'off' and scale:
+                hard['decrement'] = 'kw'
+        for k in ('clobber_src', 'clobber_out', 'clobber_epochs'):
+            if H(0.4):
+                hard[k] = True
+        case['hard'] = hard
+        if H(0.15) and not scale:
+            d = self._pipe_case(rng, big=False)
+            d['ops'] = d['ops'][:6]
+            case['decoy'] = d
+        return case
 
     def cases(self, rng, tier):
         quick = tier == 'quick'
         yield from self._float_cases(rng, 4000 if quick else 150000)
-        for i in range(500 if quick else 2000):
+        for i in range(2 if quick else 8):
+            yield self._pipe_case(rng, big=False, hardened=(i % 2 == 1), scale=('many', 'long')[i % 2])
+        for i in range(600 if quick else 2500):
             yield self._pipe_case(rng, big=(i % 3 == 0))
+            yield self._pipe_case(rng, big=(i % 3 == 0), hardened=True)
 
     # ------------------------------------------------------------------ lines
     @staticmethod
@@ -431,7 +711,7 @@ class C06(Spec):
 
     def impl_lines(self, case):
         if case['kind'] == 'float':
-            return [f"ok {float_roundtrip(case['fs'], case['K0'], case['k'], case['P'] + case['f'])}"]
+            return [f"ok {int(float_roundtrip(case['fs'], case['K0'], case['k'], case['P'] + case['f'], case.get('as')))}"]
         sim = sim_cached(case, True)
         if 'error' in sim:
             return [f"queue-raised {sim['error']}"]
@@ -610,8 +890,20 @@ class C06(Spec):
                 c = dict(case)
                 c['stims'] = [dict(s, trials=s['trials'] - 1) if j == i else s for j, s in enumerate(case['stims'])]
                 yield c
-        if case['K0']:
+        if case['K0'] and not case['pre']:
             yield dict(case, K0=0)
+        # drop the hardening decorations one by one
+        if case.get('decoy'):
+            yield {k: v for k, v in case.items() if k != 'decoy'}
+        if case.get('second'):
+            yield dict(case, second=None)
+        for k in list(case.get('hard') or {}):
+            yield dict(case, hard={kk: v for kk, v in case['hard'].items() if kk != k})
+        for i, st in enumerate(case['stims']):
+            for k in ('delay_as', 'dtype'):
+                if k in st:
+                    yield dict(case, stims=[{kk: v for kk, v in s_.items() if kk != k} if j == i else s_
+                                            for j, s_ in enumerate(case['stims'])])
 
     def describe(self, case):
         if case['kind'] == 'float':
